@@ -232,6 +232,7 @@ func run(pc *propCfg, id, tier string, seed uint64, budget, nw int, replayFile, 
 	}
 	wg.Wait()
 	crashed := 0
+	var died []string
 	for i, e := range errs {
 		if e == nil {
 			continue
@@ -250,7 +251,11 @@ func run(pc *propCfg, id, tier string, seed uint64, budget, nw int, replayFile, 
 			results[i] = &runner.Result{Probes: map[string]int{}, Faults: map[string]int{}}
 			continue
 		}
-		fatal2("worker %d (%s) failed: %v", i, jobs[i].b.variant, e)
+		// a worker that died (out of memory, fatal runtime error caused by the
+		// tree under test, watchdog of the driver): keep what the others found
+		died = append(died, fmt.Sprintf("worker %d (%s/%s): %s", i, jobs[i].b.engine, jobs[i].b.variant, firstLine(e.Error())))
+		fmt.Fprintf(os.Stderr, "WORKER-DIED: worker %d (%s/%s) failed: %v\n", i, jobs[i].b.engine, jobs[i].b.variant, tail(e.Error(), 1500))
+		results[i] = &runner.Result{Probes: map[string]int{}, Faults: map[string]int{}}
 	}
 	// merge
 	agg := &runner.Result{Probes: map[string]int{}, Faults: map[string]int{}}
@@ -258,7 +263,11 @@ func run(pc *propCfg, id, tier string, seed uint64, budget, nw int, replayFile, 
 	var viols []runner.Replay
 	seen := map[string]bool{}
 	byVariant := map[string]int{}
+	var watchdogs []string
 	for _, r := range results {
+		if r.Watchdog != "" {
+			watchdogs = append(watchdogs, r.Watchdog)
+		}
 		agg.Runs += r.Runs
 		agg.NonTrivial += r.NonTrivial
 		agg.Inconcl += r.Inconcl
@@ -345,6 +354,19 @@ func run(pc *propCfg, id, tier string, seed uint64, budget, nw int, replayFile, 
 	if exit == 0 && agg.Runs == 0 {
 		fatal2("no run was executed")
 	}
+	if len(died) > 0 && exit == 0 {
+		// nothing explains why workers died: harness trouble, not a verdict
+		fmt.Fprintf(os.Stderr, "HARNESS-ERROR: %d worker(s) died and no violation was found by the others: %s\n", len(died), died[0])
+		return 2
+	}
+	if len(watchdogs) > 0 {
+		// a run that does not come back is harness trouble unless a violation
+		// explains the tree's misbehaviour anyway
+		fmt.Fprintf(os.Stderr, "WATCHDOG: %d worker(s) were stopped by the per-run watchdog, e.g. %s\n", len(watchdogs), watchdogs[0])
+		if exit == 0 {
+			return 2
+		}
+	}
 	return exit
 }
 
@@ -372,6 +394,13 @@ func runWorker(bin string, env []string, out string, timeout time.Duration) (*ru
 	select {
 	case err := <-done:
 		if err != nil {
+			// a worker killed by its per-run watchdog leaves partial results behind
+			if b, rerr := os.ReadFile(out); rerr == nil {
+				var r runner.Result
+				if json.Unmarshal(b, &r) == nil && r.Watchdog != "" {
+					return &r, nil
+				}
+			}
 			return nil, fmt.Errorf("%v\n%s", err, tail(buf.String(), 4000))
 		}
 	case <-time.After(timeout):
